@@ -445,6 +445,12 @@ func (e *SpecEnv) fieldStep(cur Val, i int) Val {
 		fa := e.c.fieldAddr(x.T, st, i)
 		ft := structOf(st).Field(i).Type()
 		if isAggregate(ft) {
+			// arrays of scalars are values (so that == compares contents); structs stay references to the embedded aggregate
+			if at, ok := ft.Underlying().(*types.Array); ok {
+				if _, scalar := e.c.ar.sortOfScalar(at.Elem()); scalar {
+					return e.c.loadAt(e.s, e.heap, fa, ft)
+				}
+			}
 			return fa // keep as reference to the embedded aggregate (typed pointer)
 		}
 		v := e.c.loadAt(e.s, e.heap, fa, ft)
